@@ -12,6 +12,8 @@ EXTRA = {  # checks tried after the change's own property (first round: from the
  "C06-r3m2": ["C07"], "C09-r3m1": ["C13"], "C11-r3m1": ["C06"], "C11-r3m2": ["C12"], "C12-r3m2": ["C08"], "C16-r3m2": ["C05"], "C19-r3m2": ["C18"], "C10-r3m1": ["C12"], "C01-r3m2": ["C02"],
  "C01-r4m1": ["C02"], "C01-r4m2": ["C12"], "C02-r4m1": ["C06"], "C03-r4m1": ["C01"], "C03-r4m2": ["C09", "C16"], "C04-r4m1": ["C16"], "C04-r4m2": ["C09"], "C05-r4m2": ["C18"],
  "C06-r4m1": ["C08"], "C06-r4m2": ["C13"], "C10-r4m1": ["C07"], "C11-r4m1": ["C07", "C04"], "C11-r4m2": ["C13"], "C12-r4m2": ["C10"], "C14-r4m1": ["C08", "C07"], "C18-r4m2": ["C05"],
+ "C01-r5m1": ["C02"], "C01-r5m2": ["C02"], "C02-r5m1": ["C01"], "C02-r5m2": ["C01"], "C03-r5m1": ["C16"], "C04-r5m1": ["C01"], "C04-r5m2": ["C07"], "C05-r5m1": ["C07"], "C05-r5m2": ["C16"],
+ "C06-r5m1": ["C06"], "C07-r5m2": ["C07"], "C08-r5m1": ["C01"], "C08-r5m2": ["C01"], "C11-r5m1": ["C06"], "C11-r5m2": ["C13"], "C15-r5m2": ["C01"], "C16-r5m1": ["C18"], "C17-r5m1": ["C18"], "C18-r5m2": ["C07"], "C13-r5m2": ["C10"],
  "C11-r2m1": ["C06"], "C11-r2m2": ["C07"], "C16-r2m2": ["C18"], "C17-r2m2": ["C19"], "C18-r2m1": ["C07"], "C05-r2m1": ["C04"], "C09-r2m2": ["C10"], "C12-r2m1": ["C06"], "C15-r2m2": ["C01"],
 }
 def one(sid, all_listed):
